@@ -136,7 +136,18 @@ impl From<Arr> for Variable { fn from(v: Arr) -> (r: Variable) { Variable::Array
 
 // `Array` associated functions used by operator bodies (src/variable/array.rs) — not verified here
 pub struct Array {}
+pub struct ArrayOwned { pub elems: Ghost<Seq<Variable>> }   // an `Array` value before it is put in an Arc
+impl vstd::std_specs::convert::FromSpecImpl<ArrayOwned> for Arr {
+    open spec fn obeys_from_spec() -> bool { true }
+    open spec fn from_spec(v: ArrayOwned) -> Arr { Arr { elems: v.elems } }
+}
+impl From<ArrayOwned> for Arr { fn from(v: ArrayOwned) -> (r: Arr) { Arr { elems: v.elems } } }
 impl Array {
+    /// Array::new_repeat(value, len): `len` copies of `value` (std::iter::repeat_n(..).collect())
+    #[verifier::external_body]
+    pub fn new_repeat(value: Variable, len: usize) -> (r: ArrayOwned)
+        ensures r.elems@.len() == len, forall|i: int| 0 <= i < len ==> r.elems@[i] == value
+    { unimplemented!() }
     #[verifier::external_body]
     pub fn concat(array1: Arr, array2: Arr) -> (r: Arr)
         ensures r.elems@ == array1.elems@ + array2.elems@
@@ -396,6 +407,95 @@ pub open spec fn match_st(arms: Seq<MatchArm>, v: Variable, s: int, k: int) -> i
     }
 }
 
+// ----- sequences: Arc<str> viewed as Seq<char>, Arc<Array> viewed as Seq<Variable> -----------
+pub struct CharsIt { pub rest: Ghost<Seq<char>> }
+pub struct CharStr { pub ch: Ghost<char> }             // result of char::to_string()
+pub struct Ch { pub ch: Ghost<char> }                  // a `char` yielded by Chars
+impl Str {
+    /// str::chars — assumed to yield the Unicode scalar values of the string, in order
+    #[verifier::external_body]
+    pub fn chars(&self) -> (r: CharsIt) ensures r.rest@ == self.chars@ { unimplemented!() }
+}
+impl CharsIt {
+    #[verifier::external_body]
+    pub fn nth(&mut self, n: usize) -> (r: Option<Ch>)
+        ensures n < old(self).rest@.len() ==> r is Some && r->Some_0.ch@ == old(self).rest@[n as int],
+                n >= old(self).rest@.len() ==> r is None
+    { unimplemented!() }
+    #[verifier::external_body]
+    pub fn count(self) -> (r: usize) ensures r == self.rest@.len() { unimplemented!() }
+}
+impl Ch {
+    #[verifier::external_body]
+    pub fn to_string(&self) -> (r: CharStr) ensures r.ch@ == self.ch@ { unimplemented!() }
+}
+impl vstd::std_specs::convert::FromSpecImpl<CharStr> for Variable {
+    open spec fn obeys_from_spec() -> bool { true }
+    open spec fn from_spec(v: CharStr) -> Variable { Variable::String(Str { chars: Ghost(seq![v.ch@]) }) }
+}
+impl From<CharStr> for Variable {
+    #[verifier::external_body]
+    fn from(v: CharStr) -> (r: Variable) { unimplemented!() }
+}
+impl Arr {
+    /// <[Variable]>::get through Deref of Array
+    #[verifier::external_body]
+    pub fn get(&self, index: usize) -> (r: Option<&Variable>)
+        ensures index < self.elems@.len() ==> r == Some(&self.elems@[index as int]),
+                index >= self.elems@.len() ==> r is None
+    { unimplemented!() }
+    #[verifier::external_body]
+    pub fn len(&self) -> (r: usize) ensures r == self.elems@.len() { unimplemented!() }
+}
+/// length of a sequence value: elements of an array, Unicode scalar values of a string
+pub open spec fn spec_len(v: Variable) -> nat {
+    match v {
+        Variable::Array(a) => a.elems@.len(),
+        Variable::String(s) => s.chars@.len(),
+        _ => 0,
+    }
+}
+
+// ----- abstract machine of the recreate (constant folding) pass -------------------------------
+pub struct LocalVariables { pub st: Ghost<int> }
+pub uninterp spec fn rec_res(i: Instruction, s: int) -> Result<Instruction, ExecError>;
+pub uninterp spec fn rec_st(i: Instruction, s: int) -> int;
+pub uninterp spec fn lv_layer(s: int) -> int;
+impl Instruction {
+    /// `impl Recreate for Instruction` (match_any! dispatch); trusted
+    #[verifier::external_body]
+    pub fn recreate(&self, local_variables: &mut LocalVariables) -> (r: Result<Instruction, ExecError>)
+        ensures r == rec_res(*self, old(local_variables).st@),
+                final(local_variables).st@ == rec_st(*self, old(local_variables).st@)
+    { unimplemented!() }
+}
+// derive_more::From on Instruction for the Arc-wrapped kinds (assumed: wraps in Arc::new)
+impl vstd::std_specs::convert::FromSpecImpl<BinOperation> for Instruction {
+    open spec fn obeys_from_spec() -> bool { true }
+    open spec fn from_spec(v: BinOperation) -> Instruction { Instruction::BinOperation(Arc::new(v)) }
+}
+impl From<BinOperation> for Instruction { fn from(v: BinOperation) -> (r: Instruction) { Instruction::BinOperation(Arc::new(v)) } }
+impl vstd::std_specs::convert::FromSpecImpl<UnaryOperation> for Instruction {
+    open spec fn obeys_from_spec() -> bool { true }
+    open spec fn from_spec(v: UnaryOperation) -> Instruction { Instruction::UnaryOperation(Arc::new(v)) }
+}
+impl From<UnaryOperation> for Instruction { fn from(v: UnaryOperation) -> (r: Instruction) { Instruction::UnaryOperation(Arc::new(v)) } }
+impl vstd::std_specs::convert::FromSpecImpl<IfElse> for Instruction {
+    open spec fn obeys_from_spec() -> bool { true }
+    open spec fn from_spec(v: IfElse) -> Instruction { Instruction::IfElse(Arc::new(v)) }
+}
+impl From<IfElse> for Instruction { fn from(v: IfElse) -> (r: Instruction) { Instruction::IfElse(Arc::new(v)) } }
+impl vstd::std_specs::convert::FromSpecImpl<ArrayRepeat> for Instruction {
+    open spec fn obeys_from_spec() -> bool { true }
+    open spec fn from_spec(v: ArrayRepeat) -> Instruction { Instruction::ArrayRepeat(Arc::new(v)) }
+}
+impl From<ArrayRepeat> for Instruction { fn from(v: ArrayRepeat) -> (r: Instruction) { Instruction::ArrayRepeat(Arc::new(v)) } }
+impl vstd::std_specs::convert::FromSpecImpl<Variable> for Instruction {
+    open spec fn obeys_from_spec() -> bool { true }
+    open spec fn from_spec(v: Variable) -> Instruction { Instruction::Variable(v) }
+}
+impl From<Variable> for Instruction { fn from(v: Variable) -> (r: Instruction) { Instruction::Variable(v) } }
+
 //@MACHINE
 
 } // verus!
@@ -404,5 +504,6 @@ pub open spec fn match_st(arms: Seq<MatchArm>, v: Variable, s: int, k: int) -> i
 impl std::fmt::Display for Variable { fn fmt(&self, _: &mut std::fmt::Formatter<'_>) -> std::fmt::Result { Ok(()) } }
 impl std::fmt::Debug for Variable { fn fmt(&self, _: &mut std::fmt::Formatter<'_>) -> std::fmt::Result { Ok(()) } }
 impl std::fmt::Display for Str { fn fmt(&self, _: &mut std::fmt::Formatter<'_>) -> std::fmt::Result { Ok(()) } }
+impl std::fmt::Display for Type { fn fmt(&self, _: &mut std::fmt::Formatter<'_>) -> std::fmt::Result { Ok(()) } }
 impl std::fmt::Display for Arr { fn fmt(&self, _: &mut std::fmt::Formatter<'_>) -> std::fmt::Result { Ok(()) } }
 fn main() {}
